@@ -2,8 +2,8 @@
 import sys, os, subprocess, time
 sys.path.insert(0, os.path.dirname(os.path.abspath(__file__)))
 import vrun
-mods = [a for a in sys.argv[1:] if not a.startswith('-')]
-extra = [a for a in sys.argv[1:] if a.startswith('-')]
+mods = [a for a in sys.argv[1:] if not a.startswith('-') and not a.isdigit()]
+extra = [a for a in sys.argv[1:] if a.startswith('-') or a.isdigit()]
 b = vrun.build()
 os.makedirs(vrun.GEN_DIR, exist_ok=True)
 gen = os.path.join(vrun.GEN_DIR, 'fastqr_dev.rs')
@@ -13,12 +13,12 @@ for m in mods:
     cmd += ['--verify-module', m]
 t = time.time()
 p = subprocess.run(cmd, capture_output=True, text=True)
-err = p.stderr
+err = '\n'.join(l for l in p.stderr.split('\n') if not l.startswith('[rust_verify'))
 # drop warnings
 out = []
 skip = False
 for blk in err.split('\n\n'):
-    if blk.lstrip().startswith('warning') or blk.lstrip().startswith('[rust_verify'):
+    if blk.lstrip().startswith('warning'):
         continue
     out.append(blk)
 print('\n\n'.join(out)[-12000:])
